@@ -17,7 +17,8 @@ pub fn load_cert(name: &str) -> Cert {
 pub fn load_cert(name: &str) -> Cert {
     let pem = std::fs::read(cert_dir().join(format!("{name}.cert.pem"))).expect("read fixture cert");
     let mut rd = &pem[..];
-    rustls_pemfile::certs(&mut rd).next().expect("one cert").expect("parse fixture cert")
+    let cert = rustls_pemfile::certs(&mut rd).next().expect("one cert").expect("parse fixture cert");
+    cert
 }
 
 pub const BACKEND: &str = if cfg!(feature = "native") { "native-tls" } else { "rustls" };
